@@ -22,7 +22,7 @@ RULE = ('error kinds {404, 405, 400 undecodable path, 400 malformed chunked body
         'string, Host and X-Forwarded-Host; observed through Ombott.__call__ with debug off. Non-trivial = a marker reached the request; '
         'distinct = distinct (error kind, rendering, marker placement and payload).')
 PYOPT = {'quick': 1, 'thorough': 1}     # one unit of every kind is also served by an interpreter started with -O (assert statements compiled out)
-REQUIRED = ['units_run_under_python_-O', 'debug_switched_off_with_another_falsy_value', 'addresses_with_utf8_text_in_wsgi_form', 'addresses_of_thousands_of_characters', 'stock_page_reached_through_default_error_handler()', 'third_error_of_a_chain_rendered', 'debugging_application_in_same_process', 'tag_structure_compared_with_baseline', 'html_pages_parsed', 'json_bodies_parsed', 'marker_ids_found_escaped', 'kind_404', 'kind_405', 'kind_400_path', 'kind_400_body',
+REQUIRED = ['units_run_under_python_-O', 'json_documents_of_graded_sizes', 'debug_switched_off_with_another_falsy_value', 'addresses_with_utf8_text_in_wsgi_form', 'addresses_of_thousands_of_characters', 'stock_page_reached_through_default_error_handler()', 'third_error_of_a_chain_rendered', 'debugging_application_in_same_process', 'tag_structure_compared_with_baseline', 'html_pages_parsed', 'json_bodies_parsed', 'marker_ids_found_escaped', 'kind_404', 'kind_405', 'kind_400_path', 'kind_400_body',
             'kind_413', 'kind_500', 'kind_last_resort', 'in_query', 'in_host', 'in_path', 'format_syntax_markers']
 ASSUMPTIONS = ['debug is off', 'text the application itself supplies (abort(400, "<i>..")) is not request data',
                'the page is HTML: markup is what html.parser recognises as a tag, attribute or entity']
@@ -379,6 +379,19 @@ def run_kind(ctx, app, lr_app, rng, i, kind, as_json, more_apps=None):
                     'page_excerpt': re.sub(r'\s+', ' ', r.body.decode('utf8', 'replace'))[-260:]})
 
 
+def json_sweep(ctx, app):
+    """JSON error documents of every size from a few hundred bytes to beyond 8 KB whose text is dense in characters JSON has to escape
+    (quotes, backslashes, line breaks): whatever the size, the body is valid JSON."""
+    for n in list(range(40, 1500, 3)) + list(range(1500, 4200, 53)):
+        for kind in ('500', '404'):
+            qs = ('"\\\n\t<' * n)[:n * 2 + n % 5]
+            env = make_environ('GET', '/crash' if kind == '500' else '/nothing-here', qs='q=' + qs.replace('\n', '%0A').replace('\t', '%09'), headers={'Accept': 'application/json'})
+            r = call_app(app, env)
+            ctx.count('json_documents_of_graded_sizes')
+            ctx.case(('json-sweep', kind, n), nontrivial=True)
+            check_json(ctx, r, kind, {'unit': {'kind': 'note', 'error_kind': kind, 'json': True, 'query_length': len(qs)}})
+
+
 KINDS = ['404', '405', '400_path', '400_body', '413', '500', 'last']
 
 
@@ -418,5 +431,7 @@ def run_unit(ctx, unit):
     for i in range(unit['n']):
         kind = KINDS[i % len(KINDS)]
         run_kind(ctx, app, lr_app, rng, i, kind, as_json=(i // len(KINDS)) % 2 == 1, more_apps=more)
+    if unit.get('sub', 0) == 0:
+        json_sweep(ctx, app)
     ctx.count('addresses_of_thousands_of_characters', LONG.get('n', 0) // 2)
     ctx.count('addresses_with_utf8_text_in_wsgi_form', LONG.get('utf8', 0) // 2)
